@@ -225,16 +225,17 @@ class AstBase:
         rec(body, fn.node, "body")
 
     # ---- lookup
-    def fn(self, file_suffix, name, impl=None, required=True, inline=False):
+    def fn(self, file_suffix, name, impl=None, required=True, inline=False, keep=()):
         """Find exactly one non-test fn by file suffix, name, optional impl
         container substring.  inline=True: the view with same-file helpers inlined (see inline_helpers)."""
         if inline:
             f = self.fn(file_suffix, name, impl, required)
             if f is None:
                 return None
-            if f.qual not in self._inl:
-                self._inl[f.qual] = inline_helpers(self, f)
-            return self._inl[f.qual]
+            key = (f.qual, tuple(keep))
+            if key not in self._inl:
+                self._inl[key] = inline_helpers(self, f, keep=keep)
+            return self._inl[key]
         cands = []
         for f in self.fns:
             if f.name != name or not f.file.endswith(file_suffix) or f.is_test:
@@ -1051,7 +1052,7 @@ def _propagating_site(c):
     return False
 
 
-def inline_helpers(ast, fn, depth=2):
+def inline_helpers(ast, fn, depth=2, keep=()):
     node = _copy_tree(fn.node)
     view = Fn(node, fn.file, fn.container, fn.qual)
     view.is_test = fn.is_test
@@ -1063,7 +1064,7 @@ def inline_helpers(ast, fn, depth=2):
             if c.k not in ("call", "mcall"):
                 continue
             g = _helper_for(ast, fn, c, {fn.qual} | set(view.inlined) if False else {fn.qual})
-            if g is None:
+            if g is None or g.name in keep:
                 continue
             if any(x.k == "try" for x in walk_no_nested_fn(g.body)) and not _propagating_site(c):
                 continue
